@@ -112,6 +112,27 @@ def r_override(ctx, model):
                   explanation=f"QHACalculator.{name} replaces qha's method but drops its check {missing}: input the library would "
                               f"reject (e.g. volume blocks not in decreasing order) is processed and gives different numbers",
                   key=f"override.{name}")
+        # sibling agreement on state: every attribute the library's method stores must be stored by the replacement too (the rest
+        # of the library reads them: q-point weights, frequencies, volumes ...)
+        def stores(fd):
+            sn0 = fd.args.args[0].arg if fd.args.args else "self"
+            out_ = set()
+            for st in ast.walk(fd):
+                tg = st.targets if isinstance(st, ast.Assign) else ([st.target] if isinstance(st, (ast.AnnAssign, ast.AugAssign)) else [])
+                for t in tg:
+                    for x in ast.walk(t):
+                        if isinstance(x, ast.Attribute) and isinstance(x.value, ast.Name) and x.value.id == sn0 and isinstance(x.ctx, ast.Store):
+                            out_.add(x.attr)
+            return out_
+        ostores = stores(f)
+        for c in ast.walk(f):
+            if isinstance(c, ast.Call) and isinstance(c.func, ast.Attribute) and isinstance(c.func.value, ast.Name) and c.func.value.id == sn_ and c.func.attr in om and c.func.attr != name:
+                ostores |= stores(om[c.func.attr])
+        lost = sorted(stores(bm[name]) - ostores)
+        ctx.check(not lost, f"override {name} stores every attribute qha's {name} stores", model.where(f"{QHACALC}.{name}", f),
+                  expected=f"assigns {sorted(stores(bm[name]))}", found=f"not assigned: {lost}",
+                  explanation=f"QHACalculator.{name} replaces qha's method but no longer sets {lost}: the library reads these attributes later (e.g. the q-point "
+                              f"weights of the free-energy sum), so the calculation aborts or uses stale data", key=f"override.{name}.stores")
         if name == "read_input":
             # the decreasing-order check must look at the volumes this method stores
             sn = f.args.args[0].arg
